@@ -204,6 +204,16 @@ def expectKw (kw : String) (last : Nat) : P Nat
   | ⟨.ident s, l⟩ :: r => if s == kw then .ok (l, r) else .error ⟨s!"expected {kw}", l⟩
   | ts => .error ⟨s!"expected {kw}", lineOf ts last⟩
 
+/-- drop one optional separator -/
+def skipSym (c : Char) : List LTok → List LTok
+  | ⟨.sym d, l⟩ :: r => if d == c then r else ⟨.sym d, l⟩ :: r
+  | ts => ts
+
+/-- drop one optional keyword -/
+def skipKw (kw : String) : List LTok → List LTok
+  | ⟨.ident s, l⟩ :: r => if s == kw then r else ⟨.ident s, l⟩ :: r
+  | ts => ts
+
 def expectNum (last : Nat) : P String
   | ⟨.num s, _⟩ :: r => .ok (s, r)
   | ts => .error ⟨"expected number", lineOf ts last⟩
@@ -279,7 +289,7 @@ def parseArgs (vf : Nat) : Nat → Nat → P (List PVal)
     | ⟨.sym ')', _⟩ :: r => .ok ([], r)
     | _ => do
       let (v, r1) ← parseValue vf last ts
-      let r2 := match r1 with | ⟨.sym ',', _⟩ :: r => r | _ => r1
+      let r2 := skipSym ',' r1
       let (vs, r3) ← parseArgs vf g last r2
       .ok (v :: vs, r3)
 
@@ -290,7 +300,7 @@ def parseParams (vf : Nat) : Nat → Nat → P (List PParam)
     match ts with
     | ⟨.ident s, l⟩ :: ⟨.sym '(', _⟩ :: r => do
       let (args, r1) ← parseArgs vf (r.length + 1) l r
-      let r2 := match r1 with | ⟨.sym '|', _⟩ :: r => r | _ => r1
+      let r2 := skipSym '|' r1
       let (ps, r3) ← parseParams vf g l r2
       .ok (⟨s, args⟩ :: ps, r3)
     | _ => .ok ([], ts)
@@ -306,7 +316,7 @@ def parseFields (vf : Nat) : Nat → Nat → P (List PField)
       let (id, r3) ← expectNum l r2
       let (_, r4) ← expectSym ':' l r3
       let (ty, r5) ← parseType vf l r4
-      let r6 := match r5 with | ⟨.sym '|', _⟩ :: r => r | _ => r5
+      let r6 := skipSym '|' r5
       let (ps, r7) ← parseParams vf (r6.length + 1) l r6
       let (_, r8) ← expectSym ',' l r7
       let (fs, r9) ← parseFields vf g l r8
@@ -392,26 +402,26 @@ def parseDecl (last : Nat) : P PDecl
   | ⟨.ident "struct", l⟩ :: r => do
     let ((name, _), r1) ← expectIdent l r
     let (_, r2) ← expectSym '{' l r1
-    let (fs, r3) ← parseFields (r2.length + 1) (r2.length + 1) l r2
+    let (fs, r3) ← parseFields (2 * r2.length + 2) (r2.length + 1) l r2
     if fs.isEmpty then .error ⟨"struct needs a field", lineOf r3 l⟩ else
     let (_, r4) ← expectSym '}' l r3
     .ok (.struct name fs l, r4)
   | ⟨.ident "enum", l⟩ :: r => do
     let ((name, _), r1) ← expectIdent l r
     let (_, r2) ← expectSym '{' l r1
-    let (es, r3) ← parseEnumItems (r2.length + 1) (r2.length + 1) l r2
+    let (es, r3) ← parseEnumItems (2 * r2.length + 2) (r2.length + 1) l r2
     let (_, r4) ← expectSym '}' l r3
     .ok (.enum name es l, r4)
   | ⟨.ident "impl", l⟩ :: r => do
     let ((proto, _), r1) ← expectIdent l r
     let (_, r2) ← expectKw "for" l r1
     let ((ty, _), r3) ← expectIdent l r2
-    let r4 : List LTok := match r3 with | ⟨.ident "as", _⟩ :: r' => r' | _ => r3
+    let r4 : List LTok := skipKw "as" r3
     let (name, r5) : Option String × List LTok := match r4 with
       | ⟨.ident n, _⟩ :: r' => (some n, r')
       | _ => (none, r4)
     let (_, r6) ← expectSym '{' l r5
-    let (is, r7) ← parseImplItems (r6.length + 1) (r6.length + 1) l r6
+    let (is, r7) ← parseImplItems (2 * r6.length + 2) (r6.length + 1) l r6
     if is.isEmpty then .error ⟨"impl needs a field", lineOf r7 l⟩ else
     let (_, r8) ← expectSym '}' l r7
     .ok (.impl proto ty name is l, r8)
@@ -427,7 +437,7 @@ def parseDecl (last : Nat) : P PDecl
   | ⟨.ident "device", l⟩ :: r => do
     let ((name, _), r1) ← expectIdent l r
     let (_, r2) ← expectSym '{' l r1
-    let (fs, r3) ← parseExtFields (r2.length + 1) (r2.length + 1) l r2
+    let (fs, r3) ← parseExtFields (2 * r2.length + 2) (r2.length + 1) l r2
     if fs.isEmpty then .error ⟨"device needs a field", lineOf r3 l⟩ else
     let (_, r4) ← expectSym '}' l r3
     .ok (.device name fs l, r4)
